@@ -6,7 +6,6 @@
 mod plumbing;
 use plumbing::*;
 
-const NOSTD: i128 = 1;
 include!("../../../harness/src/c11_body.rs");
 
 fn main() {
